@@ -122,6 +122,10 @@ type c06Op struct {
 	NotFound bool
 	Got      []string // get: [value]; scan: k=v pairs; hist: values
 	GotTx    []uint64
+	NoWait   bool   // writes: return without waiting for the index (reads keep their default waiting semantics)
+	Limit    uint64 // scan
+	Offset   uint64 // scan
+	Desc     bool   // scan
 }
 
 var c06Keys = []string{"a", "b", "c", "d"}
@@ -187,8 +191,10 @@ func c06Body(r *simcore.Run) {
 					op.PreTx = 1 + uint64(r.Intn(8))
 				case w < 12:
 					op.Kind, op.Keys = "del", []string{k}
-				case w < 17:
+				case w < 16:
 					op.Kind, op.Keys = "get", []string{k}
+				case w < 17:
+					op.Kind, op.Keys, op.Rev = "getrev", []string{k}, int64(r.Pick(1, 2, 3, -1, -2))
 				case w < 18:
 					op.Kind = "scan"
 				case w < 19:
@@ -224,6 +230,12 @@ func c06Body(r *simcore.Run) {
 					}
 				default:
 					op.Kind, op.Keys = "hist", []string{k}
+				}
+				if (op.Kind == "set" || op.Kind == "mset") && r.Pct(30) {
+					op.NoWait = true
+				}
+				if op.Kind == "scan" && r.Pct(60) {
+					op.Limit, op.Offset, op.Desc = uint64(r.Intn(4)), uint64(r.Intn(3)), r.Pct(30)
 				}
 				op.Call = r.Seq()
 				c06Exec(ctx, d, op)
@@ -280,7 +292,7 @@ func c06Exec(ctx context.Context, d database.DB, op *c06Op) {
 			}
 		}
 		if op.Via == "execall" {
-			ea := &schema.ExecAllRequest{}
+			ea := &schema.ExecAllRequest{NoWait: op.NoWait}
 			for _, kv := range req.KVs {
 				ea.Operations = append(ea.Operations, &schema.Op{Operation: &schema.Op_Kv{Kv: kv}})
 			}
@@ -292,6 +304,7 @@ func c06Exec(ctx context.Context, d database.DB, op *c06Op) {
 			op.TxID = hdr.Id
 			return
 		}
+		req.NoWait = op.NoWait
 		hdr, err := d.Set(ctx, req)
 		if err != nil {
 			fail(err)
@@ -330,7 +343,7 @@ func c06Exec(ctx context.Context, d database.DB, op *c06Op) {
 			op.Got = append(op.Got, string(e.Key)+"="+string(e.Value))
 		}
 	case "scan":
-		es, err := d.Scan(ctx, &schema.ScanRequest{})
+		es, err := d.Scan(ctx, &schema.ScanRequest{Limit: op.Limit, Offset: op.Offset, Desc: op.Desc})
 		if err != nil {
 			fail(err)
 			return
@@ -574,10 +587,22 @@ func c06Check(r *simcore.Run, ops []*c06Op) {
 						want = append(want, "r"+k+"->"+k+"="+v.Val)
 					}
 				}
+				// the whole list is in ascending key order ("ra" > "d"): direction, offset and limit apply to it
+				if op.Desc {
+					for x, y := 0, len(want)-1; x < y; x, y = x+1, y-1 {
+						want[x], want[y] = want[y], want[x]
+					}
+				}
+				if op.Offset > 0 {
+					want = want[min(int(op.Offset), len(want)):]
+				}
+				if op.Limit > 0 && int(op.Limit) < len(want) {
+					want = want[:op.Limit]
+				}
 				ok = strings.Join(want, ",") == strings.Join(op.Got, ",")
 			}
 			if !ok {
-				c06Viol(r, "not-linearizable", "client %d: Scan returned %v which matches no state between tx %d and tx %d\n  history: %s", op.Client, op.Got, lo, hi, c06Dump(ops))
+				c06Viol(r, "not-linearizable", "client %d: Scan(limit %d offset %d desc %v) returned %v which matches no state between tx %d and tx %d\n  history: %s", op.Client, op.Limit, op.Offset, op.Desc, op.Got, lo, hi, c06Dump(ops))
 			}
 		case "getref":
 			if op.Err != "" {
